@@ -177,7 +177,7 @@ def run(ctx):
     else:
         corpus = [l.rstrip("\n") for l in open(os.path.join(HERE, "corpus.ops")) if l.strip() and not l.startswith("#")]
         ops = list(corpus)
-        for _ in range(ctx.scale(900, 10000)):
+        for _ in range(ctx.scale(600, 10000)):
             ops += gen_scenario(ctx.rng)
 
     def nontrivial(lines, im):
